@@ -162,7 +162,7 @@ def install_contract(rec) -> None:  # noqa: ANN001
 
 
 def shards(tier: str, seed: int) -> list[dict]:
-    n = 25 if tier == "quick" else 650
+    n = 90 if tier == "quick" else 1500
     return [{"count": n} for _ in range(16)]
 
 
@@ -207,13 +207,21 @@ def add_sites(rng: random.Random, pkg: packages.Pkg) -> dict[str, list[dict]]:  
         out: list[dict] = []
         shadow = rng.sample(names, min(len(names), rng.randint(1, 3))) if names else []
         use_enclosing = rng.random() < 0.06
-        cls_lines = ["class SiteK:"]
+        # a base class whose members carry names that are module globals / unknown: Python does NOT see inherited names in
+        # a class body (class scope = the body's own bindings, then module globals)
+        inherit = rng.random() < 0.6
+        base_members = (rng.sample(names, min(len(names), rng.randint(1, 2))) if names else []) + ["base_only", rng.choice(UNKNOWN)]
+        if inherit:
+            lines.append("class SiteBase:\n" + "".join(f"    {b} = '{mod}.SiteBase.{b}'\n" for b in base_members))
+        cls_lines = ["class SiteK(SiteBase):" if inherit else "class SiteK:"]
         for s in shadow:
             cls_lines.append(f"    {s} = '{mod}.SiteK.{s}'")
         cls_lines.append("    own = 1")
         cls_lines.append("    if TYPE_CHECKING:")
         for i in range(rng.randint(3, 6)):
             e = rng.choice(shadow + ["own"]) if shadow and rng.random() < 0.45 else ref_expr()
+            if inherit and rng.random() < 0.3:
+                e = rng.choice(base_members)
             form = rng.choice(["ann", "value", "param", "ret", "default"])
             nm = f"ks{i}"
             if form == "ann":
@@ -395,7 +403,18 @@ def run_case(rec, files: dict, sites: dict[str, list[dict]], top: str, nontrivia
             rec.count("packages_compared")
             problem = None
             deferred = None
-            for f, r in zip(flat, res["sites"]):
+            # roots first: a dotted chain whose root is already refuted (listed or not) carries no verdict of its own
+            order = sorted(range(len(flat)), key=lambda i: "." in flat[i]["expr"])
+            bad_roots: set[tuple] = set()
+            for i in order:
+                f, r = flat[i], res["sites"][i]
+                key = (f["module"], tuple(f["classes"]), f["expr"].split(".")[0])
+                if "." in f["expr"] and key in bad_roots:
+                    rec.count("chains_with_refuted_root_not_judged")
+                    continue
+                if "." not in f["expr"] and ((r["bound"] and not r["builtin"] and not r.get("same")) or
+                                             ((not r["bound"] or r["builtin"]) and f["griffe"] != f["expr"])):
+                    bad_roots.add(key)
                 rec.count("sites_compared")
                 if "." in f["expr"]:
                     rec.count("dotted_chains_compared")
@@ -427,7 +446,7 @@ def run_case(rec, files: dict, sites: dict[str, list[dict]], top: str, nontrivia
                 if not r["same"]:
                     site = {"classes": f["classes"], "expr": f["expr"]}
                     fid, tried = classify(site, gmod, f["griffe"], r)
-                    if fid is None and f["griffe"] == f["expr"] and "." not in f["expr"] and r["cpy"]["k"] == "module":
+                    if fid is None and "." not in f["expr"] and r["cpy"]["k"] == "module":
                         from vf.checks.c05 import from_dot_imported_submodules
 
                         tried = [*tried, "C04-init-from-dot-import-not-recorded"]
